@@ -188,6 +188,7 @@ def run(ctx):
                 nums = list(range(rep['start_number'], rep['start_number'] + admits + 1))
                 if ctx.quick() and len(nums) > 6:
                     nums = nums[:3] + nums[-3:]
+                nums = [rep['start_number'] - 1] + nums     # the number before the first one belongs to no Period: 404
                 mo = common.run_model(12, [[2, sc.model_rep(rep), int(round(p['start_s'] * 10**6)), ref_ts, k] for k in nums])
                 ri = c.get('/mps/vod/%s/%d/%s/init.%s' % (d['name'], ppk, name, ext))
                 if ri.status_code != 200:
@@ -213,7 +214,8 @@ def run(ctx):
                         if m:
                             ctx.violation('%s answers %d, the source has that segment' % (url, rr.status_code), inp)
                         elif rr.status_code != 404:
-                            ctx.violation('%s beyond the end of the source answers %d (expected 404)' % (url, rr.status_code), inp)
+                            ctx.violation('%s %s answers %d (expected 404)' % (url, 'before the first number of the Period' if k < rep['start_number']
+                                                                             else 'beyond the end of the source', rr.status_code), inp)
                         continue
                     # oracle: n-th source segment from the nearest-start one, payload identical,
                     # decode times from zero at the Period start, gapless
